@@ -126,7 +126,11 @@ def evaluate(case, out):
             js.append({"winner": w, "loser": l, "assertion_type": "WINNER_ONLY", "already_eliminated": "" if (i + len(cands)) % 3 else []})
             asr[f"{w} v {l}"] = {"winner": w, "loser": l, "proved": p}
         for (c, E, p) in nen:
-            js.append({"winner": c, "loser": "?", "assertion_type": "IRV_ELIMINATION", "already_eliminated": sorted(E)})
+            # (the eliminated candidates are a set written as a list: in any order, and a writer may name one twice)
+            el = sorted(E)
+            if len(el) % 2 == 1 and (len(el) + len(cands)) % 3 == 0:
+                el = el[::-1] + [el[0]]
+            js.append({"winner": c, "loser": "?", "assertion_type": "IRV_ELIMINATION", "already_eliminated": el})
             asr[f"{c} v ? elim {' '.join(sorted(E))}"] = {"winner": c, "loser": "?", "proved": p}
         target = {"choice_function": "IRV", "n_winners": 1, "winner": [case["winner"]],
                   "candidates": list(cands), "assertions": asr, "assertion_json": js}
